@@ -19,6 +19,7 @@ import LA.Drive.Entry
 import LA.Drive.Api
 import LA.Drive.Acl
 import LA.Drive.Thr
+import LA.Drive.ClientWrite
 open LA
 
 def engines : List (String × Engine) := [
@@ -40,7 +41,9 @@ def engines : List (String × Engine) := [
   ("ent", LA.Entry.engine),
   ("api", LA.Api.engine),
   ("acl", LA.Acl.engine),
-  ("thr", LA.Thr.engine)
+  ("thr", LA.Thr.engine),
+  ("cw", LA.WC.engine),
+  ("det", LA.WC.engine)
 ]
 
 partial def loop (e : Engine) (h : IO.FS.Stream) (out : IO.FS.Stream) (s : e.σ) : IO Unit := do
